@@ -6,6 +6,9 @@ plain read of `self.flags.<that name>` — directly, through a local, or through
 `WordBoundary.unicode_icase` is `flags.unicode && flags.icase` (both must feed it). A sibling that computes the flag
 differently (`unicode && icase` for one of the four BackRef sites) makes one spelling of a back-reference
 case-sensitive under `/i` while the others are not.
+FLAGARG: likewise, wherever a function with a bool parameter named like a flag (`unicode`, `icase`, ...) is called, the argument
+is not computed from a *different* field of `flags` (only positive evidence of a wrong flag is reported; values arriving from
+nodes, parameters or the emitter's stack are not decided).
 """
 import re
 
@@ -126,4 +129,36 @@ def check(facts):
                     r.ok(key, "from %s" % sorted(src))
                     r.sample({"function": fn, "node": a.get("variant"), "field": fname, "sources": sorted(src)})
     r.floor("flag_fields", n, 7)
+    # FLAGARG: a bool argument handed to a parameter named like a flag is not computed from a *different* flag
+    na = 0
+    argc = {}
+    for fn in sorted(facts.body_names()):
+        if "::tests::" in fn:
+            continue
+        b = facts.body(fn)
+        for bb, t in b.iter_calls():
+            cal = t.get("callee") or ""
+            if not facts.has_body(cal):
+                continue
+            cb = facts.body(cal)
+            for i, a in enumerate(t["args"], 1):
+                if i > cb.argc:
+                    break
+                nm = cb.local_name(i)
+                if cb.local_ty(i) != "bool" or nm not in flag_names:
+                    continue
+                na += 1
+                base = re.sub(r"::\{closure#\d+\}", "", fn)
+                k_ = (base, cal, nm)
+                argc[k_] = argc.get(k_, 0) + 1
+                key = "%s passes `%s` to %s #%d" % (base, nm, cal.split("::")[-1], argc[k_])
+                src = sources(facts, fn, b, a)
+                wrong = sorted(x for x in src if x.startswith("flags.") and x != "flags." + nm)
+                if wrong:
+                    r.fail(key, "the `%s` argument of %s (line %s) is computed from %s: this call site applies `%s` semantics under a "
+                                "different flag than its siblings (e.g. the utf16 emitter folding v-mode class strings with the Unicode "
+                                "tables although `u` is not set)" % (nm, cal.split("::")[-1], t.get("line"), wrong, nm), facts.loc(fn, t.get("line")))
+                else:
+                    r.ok(key, "from %s" % sorted(src))
+    r.floor("flag_arguments", na, 20)
     return r
